@@ -1018,7 +1018,8 @@ Section Loop.
   Lemma finish_props st s : finish_term ndc st = Ok s -> ms_prev s = ms_prev st /\ Clean s.
   Proof.
     rewrite finish_term_eq. destruct (ms_total ndc (ms_cs st) <=? ms_cur st); [discriminate|].
-    cbv zeta. intros E. injection E as <-. cbn. unfold Clean. cbn. auto.
+    cbv zeta. intros E. injection E as <-. split; [reflexivity|].
+    unfold Clean. cbn [ms_ps ms_cur ms_lastDoc ms_lastFreq ms_lastNorm]. auto.
   Qed.
 
   Lemma finish_pending st t : Pending st t ->
